@@ -20,9 +20,11 @@
 package c04
 
 import (
+	"bytes"
 	"crypto/sha256"
 	"encoding/base64"
 	"encoding/binary"
+	"encoding/gob"
 	"encoding/hex"
 	"encoding/json"
 	"fmt"
@@ -250,18 +252,20 @@ func (a *allowed) addFromBytes(b []byte) {
 // valid source files, written by the real writer
 
 type source struct {
-	ID     int
-	Kind   string
-	Name   string
-	Bytes  []byte
-	Layout layout
-	Allow  *allowed
+	ID      int
+	Kind    string
+	Name    string
+	Bytes   []byte
+	Layout  layout
+	Allow   *allowed
 	Entries int
 }
 
 type world struct {
 	c       *rig.Check
-	dir     string
+	dir     string // private scratch directory
+	shared  string // directory the parent leaves the sources in ("" = none)
+	writer  bool   // this process writes the shared sources
 	sources map[int]*source
 }
 
@@ -305,11 +309,75 @@ func treasurePayload(key, content string) []byte {
 	return b
 }
 
+// savedSource is what the parent hands to its children, so that every source is written only once.
+type savedSource struct {
+	Kind, Name string
+	Bytes      []byte
+	Entries    int
+	Treasure   bool
+	Triples    []triple
+	Content    []string
+}
+
+func (w *world) sourcePath(id int) string {
+	return filepath.Join(w.shared, fmt.Sprintf("src-%d.gob", id))
+}
+
+func (w *world) loadSource(id int) *source {
+	f, err := os.Open(w.sourcePath(id))
+	if err != nil {
+		return nil
+	}
+	defer f.Close()
+	var sv savedSource
+	if err := gob.NewDecoder(f).Decode(&sv); err != nil {
+		return nil
+	}
+	s := &source{ID: id, Kind: sv.Kind, Name: sv.Name, Bytes: sv.Bytes, Entries: sv.Entries, Allow: newAllowed()}
+	for _, t := range sv.Triples {
+		s.Allow.add(t.Op, t.Key, t.Data)
+	}
+	for _, c := range sv.Content {
+		s.Allow.content[c] = struct{}{}
+	}
+	s.Allow.treasure = sv.Treasure
+	l, ok := parseLayout(s.Bytes)
+	if !ok || !l.Whole {
+		return nil
+	}
+	s.Layout = l
+	return s
+}
+
+func (w *world) saveSource(s *source, triples []triple) {
+	sv := savedSource{Kind: s.Kind, Name: s.Name, Bytes: s.Bytes, Entries: s.Entries, Treasure: s.Allow.treasure, Triples: triples}
+	for c := range s.Allow.content {
+		sv.Content = append(sv.Content, c)
+	}
+	var buf bytes.Buffer
+	if err := gob.NewEncoder(&buf).Encode(&sv); err != nil {
+		panic(err)
+	}
+	if err := os.WriteFile(w.sourcePath(s.ID)+".tmp", buf.Bytes(), 0o644); err != nil {
+		panic(err)
+	}
+	if err := os.Rename(w.sourcePath(s.ID)+".tmp", w.sourcePath(s.ID)); err != nil {
+		panic(err)
+	}
+}
+
 func (w *world) source(id int) *source {
 	if s := w.sources[id]; s != nil {
 		return s
 	}
+	if w.shared != "" && !w.writer {
+		if s := w.loadSource(id); s != nil {
+			w.sources[id] = s
+			return s
+		}
+	}
 	r := w.c.RandFor(fmt.Sprintf("source-%d", id))
+	var written []triple
 	s := &source{ID: id, Allow: newAllowed()}
 	switch x := id % 5; {
 	case x < 3:
@@ -346,6 +414,7 @@ func (w *world) source(id int) *source {
 			panic(err)
 		}
 		s.Allow.add(e.Operation, e.Key, e.Data)
+		written = append(written, triple{Op: e.Operation, Key: e.Key, Data: e.Data})
 		s.Entries++
 	}
 	if s.Kind == "v2-legacy" {
@@ -424,6 +493,9 @@ func (w *world) source(id int) *source {
 	}
 	s.Layout = l
 	w.sources[id] = s
+	if w.shared != "" && w.writer {
+		w.saveSource(s, written)
+	}
 	return s
 }
 
@@ -833,6 +905,7 @@ type runner struct {
 	c    *rig.Check
 	dir  string
 	path string // <dir>/in.hyd
+	mark func(idx, call int, phase string)
 }
 
 func (rn *runner) place(b []byte) {
@@ -902,15 +975,24 @@ func (rn *runner) exec(call int) (o outcome) {
 	return o
 }
 
-// allocSite re-executes a call with every allocation profiled and names the stack that
-// allocated the most bytes.
-func (rn *runner) allocSite(call int, b []byte) string {
+// allocSite re-executes a call and names the stack that allocated the most bytes in it. With
+// the default sampling rate an allocation of 4 MiB or more is in the profile with probability
+// 1-e^-8; if nothing that large shows up the call is executed once more with every allocation
+// profiled.
+func (rn *runner) allocSite(call int, b []byte, bound uint64) string {
+	site, n := rn.allocSiteAt(call, b)
+	if uint64(n) < bound/4 {
+		old := runtime.MemProfileRate
+		runtime.MemProfileRate = 1
+		site, _ = rn.allocSiteAt(call, b)
+		runtime.MemProfileRate = old
+	}
+	return site
+}
+
+func (rn *runner) allocSiteAt(call int, b []byte) (string, int64) {
 	debug.FreeOSMemory()
-	old := runtime.MemProfileRate
-	runtime.MemProfileRate = 1
-	defer func() { runtime.MemProfileRate = old }()
 	snap := func() map[[32]uintptr]int64 {
-		runtime.GC()
 		runtime.GC()
 		runtime.GC()
 		n, _ := runtime.MemProfile(nil, true)
@@ -940,7 +1022,7 @@ func (rn *runner) allocSite(call int, b []byte) string {
 	}
 	debug.FreeOSMemory()
 	if bestN == 0 {
-		return "unknown"
+		return "unknown", 0
 	}
 	n := 0
 	for n < len(best) && best[n] != 0 {
@@ -955,7 +1037,7 @@ func (rn *runner) allocSite(call int, b []byte) string {
 			break
 		}
 	}
-	return siteOf(fns)
+	return siteOf(fns), bestN
 }
 
 // ---------------------------------------------------------------------------------------------
@@ -1015,9 +1097,11 @@ func newRecorder(seed int64) *recorder {
 	return &recorder{Seed: seed, Counts: map[string]int64{}, Sets: map[string]map[string]bool{}}
 }
 
-func (r *recorder) Case(key string, nontrivial bool) { r.Cases = append(r.Cases, caseRec{key, nontrivial}) }
-func (r *recorder) Count(name string, n int64)         { r.Counts[name] += n }
-func (r *recorder) Inconclusive(s string)              { r.Incon = append(r.Incon, s) }
+func (r *recorder) Case(key string, nontrivial bool) {
+	r.Cases = append(r.Cases, caseRec{key, nontrivial})
+}
+func (r *recorder) Count(name string, n int64) { r.Counts[name] += n }
+func (r *recorder) Inconclusive(s string)      { r.Incon = append(r.Incon, s) }
 func (r *recorder) Seen(set, v string) {
 	if r.Sets[set] == nil {
 		r.Sets[set] = map[string]bool{}
@@ -1087,16 +1171,37 @@ func (r *recorder) apply(c *rig.Check) {
 // child
 
 type spec struct {
-	From  int      `json:"from"`  // first input of the batch (names the batch)
-	Start int      `json:"start"` // input to (re)start at
-	To    int      `json:"to"`
-	Skip  [][2]int `json:"skip,omitempty"` // (input, call) pairs that killed an earlier child of this batch
-	Dir   string   `json:"dir"`
+	From    int      `json:"from"`  // first input of the batch (names the batch)
+	Start   int      `json:"start"` // input to (re)start at
+	To      int      `json:"to"`
+	Skip    [][2]int `json:"skip,omitempty"` // (input, call) pairs that killed an earlier child of this batch
+	Retries int      `json:"retries,omitempty"`
+	Dir     string   `json:"dir"`
 }
 
 type cursor struct {
-	Idx  int `json:"idx"`
-	Call int `json:"call"`
+	Idx   int    `json:"idx"`
+	Call  int    `json:"call"`
+	Phase string `json:"phase"` // call | rerun (inside the code under test) | harness
+}
+
+var curFile *os.File
+
+// setCursor records on disk where the child is (one fixed-width pwrite, no fsync needed: the
+// page cache survives the death of the process).
+func setCursor(sp spec, idx, call int, phase string) {
+	if curFile == nil {
+		f, err := os.OpenFile(curPath(sp), os.O_CREATE|os.O_RDWR|os.O_TRUNC, 0o644)
+		if err != nil {
+			panic(err)
+		}
+		curFile = f
+	}
+	cb := fmt.Sprintf(`{"idx":%d,"call":%d,"phase":%q}`, idx, call, phase)
+	cb += strings.Repeat(" ", 64-len(cb))
+	if _, err := curFile.WriteAt([]byte(cb), 0); err != nil {
+		panic(err)
+	}
 }
 
 func curPath(sp spec) string { return filepath.Join(sp.Dir, fmt.Sprintf("cur-%d", sp.From)) }
@@ -1127,38 +1232,46 @@ func runChild(c *rig.Check) {
 	}
 	defer os.RemoveAll(dir)
 	rec := newRecorder(c.Seed)
-	if sp.Start > sp.From {
+	if _, err := os.Stat(recPath(sp)); err == nil && sp.Start > sp.From {
 		// continue the record of the children of this batch that died
 		rig.ReadJSON(recPath(sp), rec)
 	}
-	w := &world{c: c, dir: dir, sources: map[int]*source{}}
+	w := &world{c: c, dir: dir, shared: sp.Dir, sources: map[int]*source{}}
 	rn := &runner{c: c, dir: dir, path: filepath.Join(dir, "in.hyd")}
 	skip := map[[2]int]bool{}
 	for _, s := range sp.Skip {
 		skip[s] = true
 	}
 	sent := rig.InstallSentinel()
+	rn.mark = func(idx, call int, phase string) { setCursor(sp, idx, call, phase) }
 	for idx := max(sp.Start, sp.From); idx < sp.To; idx++ {
+		setCursor(sp, idx, -1, "harness")
 		in := w.gen(idx)
 		al := w.allowedFor(in)
 		openedOK := false
+		gobAllowance := uint64(0)
 		for call := 0; call < nCalls; call++ {
 			if skip[[2]int{idx, call}] {
 				rec.Count("calls_that_killed_the_child", 1)
 				continue
 			}
 			rn.place(in.Bytes)
-			cb, _ := json.Marshal(cursor{Idx: idx, Call: call})
-			if err := os.WriteFile(curPath(sp), cb, 0o644); err != nil {
-				c.T.Fatal(err)
-			}
+			setCursor(sp, idx, call, "call")
 			o := rn.exec(call)
+			setCursor(sp, idx, call, "harness")
 			sent.Drain()
-			judge(rec, rn, in, al, call, &o)
+			if call == callLoadIndex && o.err == nil && !o.panicked {
+				for _, d := range o.index {
+					if a := gobReadAhead(d); a > 0 {
+						gobAllowance += a + 64<<10
+					}
+				}
+			}
+			judge(rec, rn, in, al, call, &o, gobAllowance)
 			if call == callNewFileReader && o.err == nil && !o.panicked {
 				openedOK = true
 			}
-			if o.delta > 64<<20 {
+			if o.delta > 16<<20 {
 				debug.FreeOSMemory()
 			}
 		}
@@ -1173,13 +1286,49 @@ func runChild(c *rig.Check) {
 		rec.Count("input_bytes", int64(len(in.Bytes)))
 		rec.Sample(map[string]any{"idx": in.Idx, "class": in.Class, "desc": in.Desc, "size": len(in.Bytes)})
 		rec.save(recPath(sp))
+		setCursor(sp, idx+1, -1, "harness")
 	}
 	_ = os.Remove(curPath(sp))
 	_ = os.Remove(recPath(sp))
 	rec.apply(c)
 }
 
-func judge(c *recorder, rn *runner, in *input, al *allowed, call int, o *outcome) {
+// gobReadAhead is what encoding/gob allocates up front for data taken as a gob stream in which
+// a message is longer than the rest of the data. A gob stream is a sequence of messages, each
+// preceded by its length (an unsigned integer: one byte below 128, else the negated byte count
+// followed by that many big-endian bytes); gob reads a message below 10 MiB into a buffer of the
+// claimed length and a longer one (below its 8 GiB sanity limit) through internal/saferio in
+// 10 MiB chunks, i.e. it allocates min(claimed, 10 MiB) before it notices that the data ends.
+func gobReadAhead(data []byte) uint64 {
+	for p := 0; p < len(data); {
+		var v uint64
+		if data[p] < 0x80 {
+			v = uint64(data[p])
+			p++
+		} else {
+			n := -int(int8(data[p]))
+			if n > 8 || len(data) < p+1+n {
+				return 0
+			}
+			for _, b := range data[p+1 : p+1+n] {
+				v = v<<8 | uint64(b)
+			}
+			p += 1 + n
+		}
+		if v >= 8<<30 {
+			return 0
+		}
+		if v > uint64(len(data)-p) {
+			return min(v, gobChunk)
+		}
+		p += int(v)
+	}
+	return 0
+}
+
+const gobChunk = 10 << 20
+
+func judge(c *recorder, rn *runner, in *input, al *allowed, call int, o *outcome, gobAllowance uint64) {
 	name := callNames[call]
 	c.Count("calls", 1)
 	if !o.opened {
@@ -1209,8 +1358,15 @@ func judge(c *recorder, rn *runner, in *input, al *allowed, call int, o *outcome
 		c.Inconclusive(fmt.Sprintf("harness self-check: %s failed on an unmodified valid file (%s): %v", name, in.Desc, o.err))
 	}
 	// (3) allocation
-	if bound := allocBound(len(in.Bytes)); o.delta > bound {
-		site := rn.allocSite(call, in.Bytes)
+	bound := allocBound(len(in.Bytes))
+	if call == callLoad && gobAllowance > 0 {
+		bound += gobAllowance
+		c.Count("load_inputs_with_gob_readahead_allowance", 1)
+	}
+	if o.delta > bound {
+		rn.mark(in.Idx, call, "rerun")
+		site := rn.allocSite(call, in.Bytes, bound)
+		rn.mark(in.Idx, call, "harness")
 		c.Violate("alloc:site="+site,
 			fmt.Sprintf("%s allocated %d bytes for a %d-byte %s input (%s); bound %d; allocation site %s", name, o.delta, len(in.Bytes), in.Class, in.Desc, bound, site),
 			mkWitness(c.Seed, in, call, fmt.Sprintf("TotalAlloc delta %d > %d", o.delta, bound)))
@@ -1301,21 +1457,41 @@ func pad(b []byte, n int) []byte {
 
 var fnLineRe = regexp.MustCompile(`^([^\s].*)\([^()]*\)$`)
 
-// fatalStack returns the function names (innermost first) of the goroutine that was running
-// when the runtime threw.
-func fatalStack(logPath string) (fatal string, fns []string) {
+type fatalInfo struct {
+	fatal      string
+	fns        []string // innermost first, of the goroutine that was running
+	oom        bool
+	oomBytes   uint64
+	threadFail bool
+}
+
+var oomRe = regexp.MustCompile(`runtime: out of memory: cannot allocate (\d+)-byte block`)
+
+// readFatal extracts from a dead child's log why the runtime threw and where.
+func readFatal(logPath string) (fi fatalInfo) {
 	b, err := os.ReadFile(logPath)
 	if err != nil {
-		return "", nil
+		return fi
 	}
-	lines := strings.Split(string(b), "\n")
+	txt := string(b)
+	if strings.Contains(txt, "pthread_create failed") || strings.Contains(txt, "failed to create new OS thread") {
+		fi.threadFail = true
+	}
+	if m := oomRe.FindStringSubmatch(txt); m != nil {
+		_, _ = fmt.Sscanf(m[1], "%d", &fi.oomBytes)
+	}
+	lines := strings.Split(txt, "\n")
 	i := 0
 	for ; i < len(lines); i++ {
 		if strings.HasPrefix(lines[i], "fatal error: ") || strings.HasPrefix(lines[i], "panic: ") {
-			fatal = lines[i]
+			fi.fatal = lines[i]
 			break
 		}
 	}
+	if fi.fatal == "" && fi.threadFail {
+		fi.fatal = "runtime/cgo: pthread_create failed"
+	}
+	fi.oom = strings.Contains(fi.fatal, "out of memory") || strings.Contains(fi.fatal, "cannot allocate memory")
 	for ; i < len(lines); i++ {
 		if strings.HasPrefix(lines[i], "goroutine ") && strings.HasSuffix(lines[i], ":") {
 			break
@@ -1330,10 +1506,10 @@ func fatalStack(logPath string) (fatal string, fns []string) {
 			continue
 		}
 		if m := fnLineRe.FindStringSubmatch(ln); m != nil {
-			fns = append(fns, m[1])
+			fi.fns = append(fi.fns, m[1])
 		}
 	}
-	return fatal, fns
+	return fi
 }
 
 func TestCheck(t *testing.T) {
@@ -1351,11 +1527,12 @@ func TestCheck(t *testing.T) {
 		"the plain-text swamp name of the current format is not covered by any checksum and is not judged; the legacy-format name (a METADATA entry inside a block) is",
 		"header counters (EntryCount, BlockCount, BlockSize, timestamps) are not judged",
 		fmt.Sprintf("children run under RLIMIT_AS = start-up address space + %d MiB; a child killed by 'fatal error: out of memory' while reading a file of at most a few hundred KiB counts as an allocation-bound violation", asHeadroom>>20),
+		"chroniclerV2.Load hands every payload to encoding/gob, which allocates min(claimed message length, 10 MiB) before it notices that a payload is shorter than its length prefix claims; for payloads that are not treasures (only reachable through CRC-valid blocks) that bounded standard-library read-ahead is added to the bound of Load instead of being reported",
 		"CRC32 collisions are not constructed",
 	}
 	c.MinNontrivial = 200
 	n := c.N(4000, 200000)
-	batch := c.N(10, 100)
+	batch := c.N(50, 500)
 	dir := rig.TempRoot("c04")
 	defer rig.RemoveAll(dir)
 
@@ -1375,10 +1552,13 @@ func TestCheck(t *testing.T) {
 	c.Extra("alloc_bound", fmt.Sprintf("%d x file size + %d bytes", allocFactor, allocSlack))
 	c.Extra("calls_per_input", callNames[:])
 
-	pw := &world{c: c, dir: dir, sources: map[int]*source{}}
+	pw := &world{c: c, dir: dir, shared: dir, writer: true, sources: map[int]*source{}}
+	for id := 0; id < nSources; id++ {
+		pw.source(id)
+	}
 	keptLogs := map[string]bool{}
 	for round := 0; len(pending) > 0; round++ {
-		if round > batch*nCalls+2 {
+		if round > batch*(nCalls+4)+2 {
 			c.Inconclusive(fmt.Sprintf("%d batches still dying after %d rounds", len(pending), round))
 			break
 		}
@@ -1405,21 +1585,49 @@ func TestCheck(t *testing.T) {
 				continue
 			}
 			_ = os.Remove(curPath(sp))
+			c.Count("child_deaths", 1)
+			// retry: resume at the same input without learning anything (a death that is an
+			// artefact of the address-space limit or of the harness, not of the call)
+			retry := func(why string) {
+				sp.Retries++
+				c.Count("child_deaths_retried", 1)
+				if sp.Retries > 3 {
+					c.Inconclusive(fmt.Sprintf("input %d: child keeps dying outside the code under test (%s); log %s", cur.Idx, why, r.LogPath))
+					sp.Retries = 0
+					sp.Skip = nil
+					sp.Start = cur.Idx + 1
+					if sp.Start >= sp.To {
+						return
+					}
+				} else {
+					sp.Start = cur.Idx
+				}
+				next = append(next, sp)
+			}
+			if cur.Phase == "harness" || cur.Call < 0 {
+				retry("phase harness: " + strings.Join(r.Fatal, "; "))
+				continue
+			}
 			in := pw.gen(cur.Idx)
 			name := callNames[cur.Call]
-			c.Count("child_deaths", 1)
 			keep := false
 			if r.TimedOut {
 				c.Inconclusive(fmt.Sprintf("watchdog: %s did not return within 10 minutes on input %d (%s, %s); log %s", name, cur.Idx, in.Class, in.Desc, r.LogPath))
 				keep = true
 			} else {
-				fatal, fns := fatalStack(r.LogPath)
+				lg := readFatal(r.LogPath)
 				var sig string
-				if strings.Contains(fatal, "out of memory") || strings.Contains(fatal, "cannot allocate memory") {
-					sig = "alloc:site=" + siteOf(fns)
-					c.Violate(sig, fmt.Sprintf("%s tried to allocate more than the child's address-space headroom (%d MiB) for a %d-byte %s input (%s) and the process died: %s; allocation site %s", name, asHeadroom>>20, len(in.Bytes), in.Class, in.Desc, fatal, siteOf(fns)),
-						mkWitness(c.Seed, in, cur.Call, fatal))
-				} else {
+				switch {
+				case lg.oom && lg.oomBytes > allocBound(len(in.Bytes)):
+					sig = "alloc:site=" + siteOf(lg.fns)
+					c.Violate(sig, fmt.Sprintf("%s asked for a %d-byte block for a %d-byte %s input (%s), more than the child's address-space headroom (%d MiB), and the process died: %s; allocation site %s", name, lg.oomBytes, len(in.Bytes), in.Class, in.Desc, asHeadroom>>20, lg.fatal, siteOf(lg.fns)),
+						mkWitness(c.Seed, in, cur.Call, fmt.Sprintf("%s (%d-byte block)", lg.fatal, lg.oomBytes)))
+				case lg.oom || lg.threadFail:
+					// the limit bit on an allocation that is within the bound, or on thread creation
+					retry(lg.fatal)
+					continue
+				default:
+					fatal := lg.fatal
 					if fatal == "" {
 						fatal = fmt.Sprintf("exit: %v", r.ExitErr)
 					}
@@ -1427,7 +1635,7 @@ func TestCheck(t *testing.T) {
 					if len(msg) > 80 {
 						msg = msg[:80]
 					}
-					sig = "death:" + name + ":at=" + siteOf(fns) + ":" + strings.ReplaceAll(msg, " ", "_")
+					sig = "death:" + name + ":at=" + siteOf(lg.fns) + ":" + strings.ReplaceAll(msg, " ", "_")
 					c.Violate(sig, fmt.Sprintf("the process died in %s on a %s input (%s): %s", name, in.Class, in.Desc, fatal), mkWitness(c.Seed, in, cur.Call, fatal+" log="+r.LogPath))
 				}
 				if !keptLogs[sig] {
@@ -1457,6 +1665,7 @@ func TestCheck(t *testing.T) {
 			}
 			sp.Skip = append(sk, [2]int{cur.Idx, cur.Call})
 			sp.Start = cur.Idx
+			sp.Retries = 0
 			next = append(next, sp)
 		}
 		pending = next
